@@ -304,8 +304,12 @@ def load_image_band(filename,
                                         row_min:row_max, 0:header['NAXIS1']]
         else:
             raise Exception(f"Too many NAXIS: {NAXIS}>4")
+    # physical value = BZERO + BSCALE * stored value (not in place: the stored
+    # values may be integers)
     if 'BSCALE' in header:
-        data *= header['BSCALE']
+        data = data * header['BSCALE']
+    if 'BZERO' in header:
+        data = data + header['BZERO']
     # adjust the header to match the data shape
     header['NAXIS2'] = row_max-row_min
     header['CRPIX2'] -= row_min
